@@ -73,7 +73,7 @@ def _retrieve_preconditions(ex, st, post, result):
 contract(W + 'WMSSource._get_map', props=['C17'],
          types=dict(query='opaque'), returns='opaque', default_callee='opaque',
          opaque_fields=QF, stable_fields=['bbox', 'size', 'dimensions'],
-         opaque_spec=SPEC, inline=['_get_sub_query', '__iter__'],
+         opaque_spec=SPEC, inline=['_get_sub_query', '__iter__'], opaque=['bbox_position_in_image'],
          raises={'HTTPClientError': True, 'BlankImage': True, 'Exception': True},
          loops={0: dict(types={'request_srs': 'opt[opaque]', 'srs': 'opaque'},
                         inv=['request_srs is None'])},
